@@ -40,8 +40,10 @@ type Desc struct {
 	RandDelay bool   `json:"rand_delay,omitempty"`
 	// OnClose: the driver carries on-close hooks (generic and network level) that write "exit" and a
 	// return to the channel, as the shipped platform definitions do.
-	OnClose bool  `json:"on_close,omitempty"`
-	Seed    int64 `json:"seed"`
+	OnClose bool `json:"on_close,omitempty"`
+	// AliveTracks: the transport model reports IsAlive false once the peer is gone (EOF / error seen).
+	AliveTracks bool  `json:"alive_tracks_peer,omitempty"`
+	Seed        int64 `json:"seed"`
 	// Session (kind=session): a C01 session or a scenario replayed under the race detector.
 	C01Session *c01.Session `json:"c01,omitempty"`
 	Scenario   string       `json:"scenario,omitempty"`
@@ -54,10 +56,11 @@ type Desc struct {
 var states = []string{
 	"idle-blocked", "idle-cycling", "peer-closed-unnoticed", "peer-closed-racing", "peer-closed-consumed",
 	"err-parked", "err-consumed", "data-arriving", "error-arriving", "op-in-flight", "second-close", "concurrent-close",
+	"op-blocked-in-write",
 }
 
 var concurrentStates = map[string]bool{"peer-closed-racing": true, "data-arriving": true, "error-arriving": true, "op-in-flight": true,
-	"concurrent-close": true, "err-parked": true, "err-consumed": true, "idle-cycling": true}
+	"concurrent-close": true, "err-parked": true, "err-consumed": true, "idle-cycling": true, "op-blocked-in-write": true}
 
 var points = map[string][]string{
 	"R":   {"chan.read.top", "chan.read.before-transport-read", "chan.read.after-transport-read", "chan.read.before-errs-send", "chan.read.exit"},
@@ -202,7 +205,7 @@ func runClose(d Desc) mon.Result {
 	t00 := time.Now()
 	sc := scenarioFor(d.Driver)
 	before := libIDs()
-	cfg := devsim.Config{Seg: devsim.Seg{Mode: "fixed", Size: 16, Seed: d.Seed}, Close: devsim.CloseBehaviour(d.CloseB), KeepData: true}
+	cfg := devsim.Config{Seg: devsim.Seg{Mode: "fixed", Size: 16, Seed: d.Seed}, Close: devsim.CloseBehaviour(d.CloseB), KeepData: true, AliveTracksPeer: d.AliveTracks}
 	if d.State == "idle-cycling" {
 		cfg.Poll = true
 	}
@@ -248,7 +251,7 @@ func runClose(d Desc) mon.Result {
 	}
 	viol := func(key, f string, a ...interface{}) mon.Result {
 		return mon.Result{Verdict: mon.Violated, Key: key,
-			Detail: fmt.Sprintf("%s state=%s close=%s readdelay=%dus A=%s B=%s rand=%v: ", d.Driver, d.State, d.CloseB, d.ReadDelay, d.A, d.B, d.RandDelay) + fmt.Sprintf(f, a...),
+			Detail: fmt.Sprintf("%s state=%s close=%s readdelay=%dus A=%s B=%s rand=%v onclose=%v alivetracks=%v: ", d.Driver, d.State, d.CloseB, d.ReadDelay, d.A, d.B, d.RandDelay, d.OnClose, d.AliveTracks) + fmt.Sprintf(f, a...),
 			Events: tail(s.Conn.Log(), 30), NonTrivial: true}
 	}
 	waitReadErr := func() bool {
@@ -325,6 +328,18 @@ func runClose(d Desc) mon.Result {
 			time.Sleep(time.Duration(rand.New(rand.NewSource(d.Seed)).Intn(300)) * time.Microsecond)
 			s.Conn.SetFault(devsim.FaultErr, gen)
 		}()
+	case "op-blocked-in-write":
+		// the peer stopped draining: the operation's first write blocks inside the transport until
+		// the transport is closed
+		s.Conn.SetWriteBlockAfter(1)
+		opCh = bounded(func() error {
+			_, err := sc.Op(s, opoptions.WithTimeoutOps(2*time.Second))
+			return err
+		})
+		dl := time.Now().Add(time.Second)
+		for s.Conn.WritersBlocked() == 0 && time.Now().Before(dl) {
+			time.Sleep(100 * time.Microsecond)
+		}
 	case "op-in-flight":
 		s.Conn.SetFault(devsim.FaultStall, gen)
 		w0 := s.Conn.Writes()
@@ -509,7 +524,7 @@ func gen(tier string, seed int64) []mon.Case {
 	n := 0
 	add := func(d Desc) {
 		d.Seed = seed*100003 + int64(n)
-		cs = append(cs, mon.MkCase(fmt.Sprintf("c07/%05d-%s-%s-%s-rd%d", n, d.Driver, d.State, d.CloseB, d.ReadDelay), d))
+		cs = append(cs, mon.MkCase(fmt.Sprintf("c07/%05d-%s-%s-%s-rd%d%s", n, d.Driver, d.State, d.CloseB, d.ReadDelay, map[bool]string{true: "-alive"}[d.AliveTracks]), d))
 		n++
 	}
 	drivers := []string{"generic", "network", "netconf"}
@@ -521,8 +536,14 @@ func gen(tier string, seed int64) []mon.Case {
 			for _, cb := range closeBs {
 				for _, rd := range delays {
 					add(Desc{Kind: "close", Driver: dr, State: st, CloseB: cb, ReadDelay: rd})
-					if dr != "netconf" && rd == 250 {
+					// on-close hooks that write are not combined with a transport whose writes block: the
+					// hook itself then sits in the transport's Write before Close proper begins, which
+					// says nothing about Close (recorded as an observation in DESIGN.md)
+					if dr != "netconf" && rd == 250 && st != "op-blocked-in-write" {
 						add(Desc{Kind: "close", Driver: dr, State: st, CloseB: cb, ReadDelay: rd, OnClose: true})
+					}
+					if rd == 250 && (strings.HasPrefix(st, "peer-closed") || strings.HasPrefix(st, "err-") || st == "error-arriving") {
+						add(Desc{Kind: "close", Driver: dr, State: st, CloseB: cb, ReadDelay: rd, AliveTracks: true, OnClose: dr != "netconf" && cb == "eof"})
 					}
 				}
 			}
@@ -577,7 +598,8 @@ func gen(tier string, seed int64) []mon.Case {
 	}
 	r := rand.New(rand.NewSource(seed*31 + 7))
 	for i := 0; i < nr; i++ {
-		add(Desc{Kind: "close", Driver: drivers[r.Intn(3)], State: states[r.Intn(len(states))], CloseB: closeBs[r.Intn(3)], ReadDelay: delays[r.Intn(3)], RandDelay: true, OnClose: r.Intn(3) == 0})
+		st := states[r.Intn(len(states))]
+		add(Desc{Kind: "close", Driver: drivers[r.Intn(3)], State: st, CloseB: closeBs[r.Intn(3)], ReadDelay: delays[r.Intn(3)], RandDelay: true, OnClose: r.Intn(3) == 0 && st != "op-blocked-in-write"})
 	}
 	// "during the session": sessions of other properties replayed under the race detector
 	ns := 20
@@ -676,7 +698,7 @@ func init() {
 	mon.Register(&mon.Property{
 		ID:    "C07",
 		Level: "fault_enumeration",
-		Rule: "Base matrix drivers{generic,network,netconf} x 12 connection states at Close x transport close behaviour{eof,err,blocked} x read delay{0,250,500us}; on top, for the " +
+		Rule: "Base matrix drivers{generic,network,netconf} x 13 connection states at Close x transport close behaviour{eof,err,blocked} x read delay{0,250,500us}; on top, for the " +
 			"states with concurrency every ordered pair (A,B) of instrumented yield points of different goroutine groups is forced (first arrival at B waits for A; unsatisfiable " +
 			"within 300 ms = infeasible, released); plus runs with random 0-2 ms delays at every yield point; plus C01 sessions and all operation scenarios replayed under the " +
 			"race detector. Non-trivial = a second goroutine is active at Close (reader not parked in the transport, operation in flight, second closer) or second Close. " +
